@@ -26,8 +26,9 @@
 From JV Require Import Lib.Base.
 
 Inductive kind := KInt | KStr.
-(* a class-typed option: its name, the base class of its type, whether the type is Callable[[int], <base>] *)
-Record copt := { co_name : str; co_base : str; co_callable : bool }.
+(* a class-typed option: its name, the base class of its type, whether the type is Callable[[int], <base>], and the
+   class of its default (None: the default is None; Some c: the default is a class spec of c WITH init_args) *)
+Record copt := { co_name : str; co_base : str; co_callable : bool; co_default : option str }.
 (* pd_dc: the parser has the option d : Optional[Data], Data a dataclass with fields a : int = 0, b : int = 0,
    added from a signature (add_class_arguments), so that the action's sub_add_kwargs is the non-empty dict that
    adapt_typehints receives by reference *)
@@ -109,6 +110,8 @@ Definition dv0 : dv := (s_0, s_0).
 Definition s_LBase : str := [76;66;97;115;101]%N.
 Definition s_WD : str := [87;68]%N.
 Definition s_WO : str := [87;79]%N.
+Definition s_x : str := [120]%N.
+Definition s_SubX : str := [99;48;57;95;101;120;116;114;97;46;83;117;98;88]%N.   (* c09_extra.SubX *)
 Definition s_comments : str := [99;111;109;109;101;110;116;115]%N.
 Definition s_skip_default : str := [115;107;105;112;95;100;101;102;97;117;108;116]%N.
 Definition s_skip_null : str := [115;107;105;112;95;110;117;108;108]%N.
@@ -158,6 +161,7 @@ Definition class_table : list (str * (str * bool * list (str * kind))) :=
     (s_SubA, (s_Base, true, [(s_a, KInt); (s_c, KInt)]));
     (s_SubB, (s_Base, true, [(s_a, KInt); (s_b, KStr)]));
     (s_Fac, (s_Base, false, [(s_a, KInt); (s_z, KInt)]));
+    (s_SubX, (s_Base, true, [(s_a, KInt); (s_x, KInt)]));   (* lives in a module imported only through its class_path *)
     (s_WD, (s_LBase, true, [(s_a, KInt)]));
     (s_WO, (s_LBase, true, [(s_a, KInt)])) ].
 (* parameters settable through an option of type <base> (callable = false) or Callable[[int], <base>] (true): for a
@@ -289,7 +293,11 @@ Definition apply_local (fx : fixes) (dd0 : option dv) (pd : pdecl) (prefix : str
   | Some param =>
       match find_cls h pd with
       | Some co =>
-          let cl := match alookup h (ic_sel c) with Some x => x | None => co_base co end in
+          (* init_args without a class: the class selected so far, else the class of the default, else the base *)
+          let cl := match alookup h (ic_sel c) with
+                    | Some x => x
+                    | None => match co_default co with Some dc => dc | None => co_base co end
+                    end in
           match cls_for_opt (co_base co) (co_callable co) cl with
           | Some ps =>
               match alookup param ps with
